@@ -10,7 +10,9 @@ directly addressed; the group really maps the FMMUs and walks the AL state machi
 simulated terminals.  For the group's cyclic frames the transport policy lets the simulated
 segment process the frame (inputs come out of the terminals' memory through the FMMUs the group
 programmed, outputs go in) and then overrides the returned working counters as the case script
-says (correct, off by a few, 0, >= 256 with matching or non-matching low byte).  Recording
+says (correct, off by a few, 0, >= 256 with matching or non-matching low byte); a frame may
+also be left unanswered or be answered only after the group has given up on it and sent again
+(the harness then delivers the late response to whatever the group is waiting for).  Recording
 devices (Device subclasses with TerminalVar links) log in update() what they read and set.
 The trace - frames on the wire, responses, and per cycle the device log with wkc_errors - is
 validated by TLC against SlowCycle; Python decides nothing.
@@ -26,6 +28,7 @@ LEVEL = "model_checking"
 
 PROFILES = ("low", "low", "low", "high_match", "high_mismatch", "high_mixed")
 MODES = ("fmmu", "direct", "mixed")
+LOSSKINDS = ("none", "lost", "late")     # the kind of unanswered frame a run is sure to contain
 JAVA_ENV = {"JAVA_TOOL_OPTIONS": "-XX:ParallelGCThreads=2"}
 
 
@@ -98,8 +101,8 @@ def gen_case(seed, index, big=False):
         top = 256 ** v["n"] - 1
         return rng.choice([0, 1, top, rng.randint(0, top), rng.randint(0, top)])
 
+    # what the devices do in update number c (1-based)
     cycles = []
-    forced = (rng.randint(2, ncycles), 0)     # a wrong counter from the second cycle on, for sure
     for c in range(1, ncycles + 1):
         plans = []
         for d in range(ndev):
@@ -112,17 +115,37 @@ def gen_case(seed, index, big=False):
                     ops += [("set", vi, value(v)) for _ in range(rng.choice([0, 1, 1, 2]))]
             rng.shuffle(ops)
             plans.append(ops)
+        cycles.append(dict(plans=plans))
+    # what the segment does with the j-th cyclic frame the group sends (1-based): answered in
+    # time, never answered ("lost"), or answered after the group's 20 ms patience ("late")
+    losskind = LOSSKINDS[(index // (len(PROFILES) * len(MODES))) % len(LOSSKINDS)]
+    nframes = ncycles + 6
+    forced = (rng.randint(2, ncycles), 0)     # a wrong counter from the second frame on, for sure
+    forced_loss = rng.choice([f for f in range(2, ncycles + 1) if f != forced[0]])
+    frames = []
+    for j in range(1, nframes + 1):
         wk = []
         for dg in range(8):
-            wrong = rng.random() < 0.45 or (c, dg) == forced
-            wk.append(_wkc_kind(rng, profile, wrong, must_high=(c, dg) == forced))
-        cycles.append(dict(
-            plans=plans, wkc=wk,
+            wrong = rng.random() < 0.45 or (j, dg) == forced
+            wk.append(_wkc_kind(rng, profile, wrong, must_high=(j, dg) == forced))
+        fate, delay = "answer", rng.choice([0, 0, 0.0005, 0.004, 0.009, 0.012, 0.019])
+        r = rng.random()
+        if losskind != "none" and j != forced[0] and j <= ncycles + 2:
+            if j == forced_loss:
+                fate = losskind
+            elif r < 0.08:
+                fate = "lost"
+            elif r < 0.16:
+                fate = "late"
+        if fate == "late":
+            delay = rng.choice([0.021, 0.026, 0.033, 0.047])
+        frames.append(dict(
+            fate=fate, delay=delay, wkc=wk,
             inputs=[[rng.choice([0, 255, rng.randint(0, 255), rng.randint(0, 255)])
-                     for _ in range(t["in_sz"])] for t in terms],
-            delay=rng.choice([0, 0, 0.0005, 0.004, 0.009, 0.012, 0.019])))
+                     for _ in range(t["in_sz"])] for t in terms]))
     return dict(seed=seed, index=index, big=big, profile=profile, mode=mode, ncycles=ncycles,
-                terms=terms, vars=tvars, ndev=ndev, links=links, cycles=cycles,
+                losskind=losskind, terms=terms, vars=tvars, ndev=ndev, links=links,
+                cycles=cycles, frames=frames,
                 cycletime=rng.choice([0.01, 0.01, 0.002, 0.03]))
 
 
@@ -151,7 +174,8 @@ def _wkc_kind(rng, profile, wrong, must_high):
 class _Run:
     def __init__(self):
         self.ev = []
-        self.cycle = 0          # responses delivered so far
+        self.nupd = 0           # updates recorded so far
+        self.lost = self.late = self.stray = 0
         self.ran, self.reads, self.sets = [], [], []
         self.returned, self.sent, self.expected = [], [], []
         self.cfg = None
@@ -179,8 +203,8 @@ def run_case(case, budget=60000):
     class RecDev(E.Device):
         def update(self):
             h.ran.append(self.idx + 1)
-            plan = case["cycles"][h.cycle - 1]["plans"][self.idx] \
-                if 1 <= h.cycle <= len(case["cycles"]) else []
+            plan = case["cycles"][h.nupd]["plans"][self.idx] \
+                if h.nupd < len(case["cycles"]) else []
             for op in plan:
                 name = f"v{op[1]}"
                 if op[0] == "get":
@@ -227,16 +251,32 @@ def run_case(case, budget=60000):
                 h.ev.append(dict(t="update", ran=h.ran, reads=h.reads, sets=h.sets,
                                  errs=int(sg.wkc_errors)))
                 h.ran, h.reads, h.sets = [], [], []
+                h.nupd += 1
 
         def dgs(frame):
             return [dict(cmd=d["cmd"], adp=d["adp"], ado=d["ado"], laddr=d["laddr"],
                          len=d["len"], data=list(d["data"]), wkc=d["wkc"])
                     for d in simbus.parse_frame(frame)["dgrams"][1:]]
 
+        def deliver(resp, ret, exp):
+            """the response reaches the master: it is the answer to the frame on the wire if
+            the master is waiting for one with this index, else a stray frame (not an event)"""
+            fut = ec.wait_futures.get(sg.packet_index)
+            if fut is not None and not fut.done():
+                h.returned.append(ret)
+                h.expected = exp
+                h.ev.append(dict(t="recv", dg=dgs(resp)))
+            else:
+                h.stray += 1
+            ec.datagram_received(resp, None)
+
         def policy(frame):
             if sg.task is None or simbus.frame_index(frame) != sg.packet_index:
                 return [("return", 0.0)]
             harvest()
+            if h.ev and h.ev[-1]["t"] == "send":
+                # sent again with no response accepted in between: the group gave up waiting
+                h.ev.append(dict(t="lost", errs=int(sg.wkc_errors)))
             state["frames"] += 1
             j = state["frames"]
             if h.cfg is None:
@@ -252,10 +292,13 @@ def run_case(case, budget=60000):
             sent = dgs(frame)
             h.ev.append(dict(t="send", dg=sent))
             h.sent.append([d["wkc"] for d in sent])
-            if j > case["ncycles"]:
+            if h.nupd >= case["ncycles"] or j > len(case["frames"]):
                 loop.call_soon(sg.task.cancel)
                 return [("lose",)]
-            sc = case["cycles"][j - 1]
+            sc = case["frames"][j - 1]
+            if sc["fate"] == "lost":
+                h.lost += 1
+                return [("lose",)]
             for t, s, data in zip(terms, sims, sc["inputs"]):
                 if t["in_sz"]:
                     s.mem[t["in_off"]:t["in_off"] + t["in_sz"]] = bytes(data)
@@ -271,11 +314,12 @@ def run_case(case, budget=60000):
                 resp[p:p + 2] = w.to_bytes(2, "little")
                 ret.append(w)
                 exp.append(e)
-            h.returned.append(ret)
-            h.expected = exp
-            h.ev.append(dict(t="recv", dg=dgs(bytes(resp))))
-            h.cycle = j
-            return [("raw", sc["delay"], bytes(resp))]
+            h.late += sc["fate"] == "late"
+            if sc["delay"] <= 0:
+                loop.call_soon(deliver, bytes(resp), ret, exp)
+            else:
+                loop.call_later(sc["delay"], deliver, bytes(resp), ret, exp)
+            return [("lose",)]
 
         saved = E.monotonic
         E.monotonic = loop.time
@@ -288,7 +332,7 @@ def run_case(case, budget=60000):
                 h.ev.append(dict(t="ended"))
             except asyncio.CancelledError:
                 harvest()
-                if state["frames"] <= case["ncycles"]:
+                if h.nupd < case["ncycles"] and state["frames"] <= len(case["frames"]):
                     h.ev.append(dict(t="cancelled"))
             except Exception as e:      # the run loop died: an outcome for the spec to judge
                 harvest()
@@ -355,6 +399,15 @@ def _judge(ctx, case, h, result):
     ctx.evaluated((case["seed"], case["index"], case["big"]),
                   nontrivial=wrong2 and nreads > 0 and nsets > 0)
     key = ("high" if high else "low") + "/" + case["mode"]
+    unanswered = sum(1 for i, e in enumerate(h.ev) if e["t"] == "lost"
+                     and any(x["t"] == "update" for x in h.ev[:i]))
+    lk = ctx.extra.setdefault("runs_with_unanswered_frame_after_first_cycle",
+                              dict(none=0, lost=0, late=0))
+    if unanswered:
+        lk["late" if h.late else "lost"] += 1
+    else:
+        lk["none"] += 1
+    ctx.extra["stray_responses"] = ctx.extra.get("stray_responses", 0) + h.stray
     ctx.extra.setdefault("runs_by_kind", {}).setdefault(key, 0)
     ctx.extra["runs_by_kind"][key] += 1
     if matched == length:
@@ -366,15 +419,18 @@ def _judge(ctx, case, h, result):
     cyc = sum(1 for e in h.ev[:matched + 1] if e["t"] == "send")
     fail = dict(
         seed=case["seed"], index=case["index"], big=case["big"], mode=case["mode"],
-        profile=case["profile"], ncycles=case["ncycles"],
+        profile=case["profile"], ncycles=case["ncycles"], losskind=case["losskind"],
+        frames_lost=h.lost, frames_late=h.late, stray_responses=h.stray,
+        events=[e["t"] for e in h.ev],
         rejected_at=matched, rejected_event=bad["t"], rejected_cycle=cyc, why=why,
         expected=h.expected, returned_wkc=h.returned, sent_wkc=h.sent,
         errs=[e["errs"] for e in h.ev if e["t"] == "update"],
         event=bad if bad["t"] != "send" else dict(t="send", wkc=[d["wkc"] for d in bad["dg"]]),
         cfg=h.cfg)
-    ctx.case_failed(fail, f"trace rejected by SlowCycle at event {matched} ({bad['t']} of cycle "
-                          f"{cyc}): {why}; returned counters {h.returned[:cyc]}, expected "
-                          f"{h.expected}, frame counters sent {h.sent[:cyc]}")
+    ctx.case_failed(fail, f"trace rejected by SlowCycle at event {matched} ({bad['t']}, frame "
+                          f"{cyc}; events {' '.join(e['t'] for e in h.ev[:matched + 1])}): {why}; "
+                          f"returned counters {h.returned[:cyc]}, expected {h.expected}, frame "
+                          f"counters sent {h.sent[:cyc]}")
 
 
 def _mc_one(wd, honest, quick):
@@ -438,15 +494,19 @@ def run(ctx):
     results = validate(ctx, wd, [dict(cfg=h.cfg, ev=h.ev) for h in runs])
     ctx.rule = ("one case = one configuration (1-3 terminals [thorough: 4], FMMU / direct / mixed, "
                 "byte, word and bit variables, 1-3 recording devices) run for 4-6 [8] cycles of the "
-                "real SyncGroup.run with scripted inputs, response delays and returned working "
-                "counters; non-trivial = some datagram returns a wrong counter in a cycle >= 2 and "
+                "real SyncGroup.run with scripted inputs, response delays, returned working counters "
+                "and (two thirds of the runs) frames that are never answered or answered after the "
+                "group's 20 ms patience, in the second cycle or later; non-trivial = some datagram returns a wrong counter in a cycle >= 2 and "
                 "the devices both read an input and set an output")
     ctx.exhaustive = False
     ctx.extra["gating_runs"] = len(cases) - n_extra
     ctx.extra["seeded_runs"] = n_extra
     ctx.assumptions += [
-        "responses arrive within the group's 20 ms timeout and exactly once (no lost or duplicated "
-        "cyclic frames): the property quantifies over data and counters, not over losses",
+        "a frame is answered in time, late or never, but at most once (no duplicated responses); a "
+        "response that arrives while the group waits for one is the response to the frame on the "
+        "wire, one that arrives while it waits for none is a stray frame and not an event",
+        "a send that follows a send with no response accepted in between is read as the group "
+        "having given up waiting (Lose); the 20 ms themselves are not part of the specification",
         "the first (identification) datagram of a frame is not a process-data datagram",
         "two settings of one output in one update: the last one counts; output variables do not "
         "overlap and belong to one device",
